@@ -59,9 +59,9 @@ CHECKS = {
    text="One Runtime.Submit per run inside a synctest bubble whose every blocking point (upload-source reads, transport steps, response-body reads, closes) is a parked operation released one at a time by the seeded tape, which also moves the fake clock to just before/at/after the deadline and cancels the caller's context at a chosen step. Faults: source read error at any offset, params/auth/URL errors before sending, transport error before/while/after the body, response stall/reset, body reset/truncate/stall at any offset, close errors. Oracles after the run has settled: returned, not later than the effective deadline (exact on the fake clock), error unless complete, files closed, response body closed and drained when reuse is on, no goroutine with a go-openapi/runtime frame left. The thorough tier sweeps every single-fault placement for 9 canonical scenarios × reuse on/off. Sampling of schedules, enumeration of single-fault placements; not a proof.",
    note="The network is a stub RoundTripper (net/http's Client.Do is real, http.Transport is not in the loop); fake time never passes while request construction waits for an upload source or while a Close is parked; the simulated server consumes the whole request body before answering."),
  "C17": dict(engine="SEQ", category="fault_enumeration", design="§4 C17",
-   technique="deterministic simulation: seeded HasBody/Read/Close histories over fault-injecting scripted streams, checked step by step against a reference stream model; tape minimisation + replay",
-   text="Seeded search over histories (≤12 steps of HasBody / Read / Close) on scripted underlying streams with injected faults (error at any offset, zero-length reads, data+EOF, every chunking, nil body) × declared length positive/zero/absent, each step compared with an executable reference model; the thorough tier adds the systematic sweep of every error offset × probe position for 18 stream lengths around bufio's 4096-byte buffer. Sampling, not proof.",
-   note="Trusts the reference model in sim/props/c17 (remaining bytes + sticky terminal + closed flag) and the stated artefact rules (no wrapper when a positive length is declared; caller's own closes before the first probe)."),
+   technique="deterministic simulation: seeded HasBody/Read/io.Copy/Close histories over fault-injecting scripted streams, checked step by step against a reference stream model; tape minimisation + replay",
+   text="Seeded search over histories (≤12 steps of HasBody / Read / io.Copy / Close) on scripted underlying streams with injected faults (error at any offset — sticky, or reported once and io.EOF afterwards —, zero-length reads, data+EOF, every chunking, nil body) × declared length positive/zero/absent, each step compared with an executable reference model; the thorough tier adds the systematic sweep of every error offset × probe position for 18 stream lengths around bufio's 4096-byte buffer. Sampling, not proof.",
+   note="Trusts the reference model in sim/props/c17 (remaining bytes + terminal condition, sticky or reported once + closed flag) and the stated artefact rules (no wrapper when a positive length is declared; caller's own closes before the first probe)."),
 }
 
 def main():
